@@ -2741,6 +2741,14 @@ func c16Y12(l *core.Ledger, g *gen.Generator) {
 				// (b) the reserved-identifier comparison, (c) the one-service test
 				mentions := func(pred func(*ast.Ident) bool) bool {
 					hit := false
+					if ifs.Init != nil {
+						ast.Inspect(ifs.Init, func(m ast.Node) bool {
+							if id, isID := m.(*ast.Ident); isID && pred(id) {
+								hit = true
+							}
+							return true
+						})
+					}
 					ast.Inspect(cond, func(m ast.Node) bool {
 						if id, isID := m.(*ast.Ident); isID && pred(id) {
 							hit = true
